@@ -261,6 +261,9 @@ def jobs(tier, seed):
     js += [dict(fn="internals", name="internals")]
     js += batches("conduct_purity", scale(tier, 60, 2000), scale(tier, 10, 100), gen="mix", p_loop=0.3, gseed=seed + 1,
                   P=dict(p_pub=0.8, p_items=0.2, p_retry=0.2, p_ainput=0.5), scheds=1, name="purity-under-conducting")
+    if tier == "thorough":
+        # the repository's own tests under the state-independent monitors
+        js += [dict(fn="suite_under_monitors", name="suite-under-monitors")]
     return js
 
 
